@@ -1161,6 +1161,10 @@ func (p *pkgInfo) run(version, kind string) *node {
 	case "lock":
 		fn = "hashLock"
 		args = []any{&pathSV{root: &varRoot{name: "l"}, typ: p.namedType("Lock"), goText: "l"}}
+	case "lcfg": // config hash of the definition embedded in a lock (Lock.VerifyHashes -> Definition.VerifyHashes)
+		fn = "hashDefinition"
+		l := &pathSV{root: &varRoot{name: "l"}, typ: p.namedType("Lock"), goText: "l"}
+		args = []any{it.field(p.funcs["hashLock"], l, "Definition"), constSV{constant.MakeBool(true)}}
 	}
 	fd, ok := p.funcs[fn]
 	if !ok {
@@ -1183,6 +1187,21 @@ func (p *pkgInfo) run(version, kind string) *node {
 // Lean emission
 
 func leanStr(s string) string { return strconv.Quote(s) }
+
+// interned JSON paths: the Lean side compares ids (id 0 = "").
+var (
+	pathIDs   = map[string]int{"": 0}
+	pathNames = []string{""}
+)
+
+func pathID(s string) int {
+	if id, ok := pathIDs[s]; ok {
+		return id
+	}
+	pathIDs[s] = len(pathNames)
+	pathNames = append(pathNames, s)
+	return pathIDs[s]
+}
 
 func (p *pkgInfo) srcLean(s *pathSV, loops []*varRoot) string {
 	idx := -1
@@ -1216,7 +1235,7 @@ func (p *pkgInfo) srcLean(s *pathSV, loops []*varRoot) string {
 	case "fromHex":
 		xf = fmt.Sprintf(".fromHex %d", s.xfN)
 	}
-	return fmt.Sprintf("⟨%d, [%s], %s, %s, %s⟩", idx, strings.Join(st, ", "), xf, leanStr(strings.Join(s.json, ".")), leanStr(s.goText))
+	return fmt.Sprintf("⟨%d, [%s], %s, %d, %s⟩", idx, strings.Join(st, ", "), xf, pathID(strings.Join(s.json, ".")), leanStr(s.goText+" : "+strings.Join(s.json, ".")))
 }
 
 func (p *pkgInfo) nodeLean(n *node, loops []*varRoot, ind string) string {
@@ -1596,15 +1615,14 @@ func main() {
 	fmt.Fprintf(&b, "def versions : List String := [%s]\n\n", strings.Join(qs, ", "))
 	var rows []string
 	for _, v := range versions {
-		for _, kind := range []string{"cfg", "def", "lock"} {
+		for _, kind := range []string{"cfg", "def", "lock", "lcfg"} {
 			n := p.run(v, kind)
 			fmt.Fprintf(&b, "def %s_%s : Sch :=\n  %s\n\n", kind, verIdent(v), p.nodeLean(n, nil, "  "))
 		}
-		rows = append(rows, fmt.Sprintf("(%s, cfg_%s, def_%s, lock_%s)", leanStr(v), verIdent(v), verIdent(v), verIdent(v)))
+		rows = append(rows, fmt.Sprintf("(%s, cfg_%s, def_%s, lock_%s, lcfg_%s)", leanStr(v), verIdent(v), verIdent(v), verIdent(v), verIdent(v)))
 	}
-	fmt.Fprintf(&b, "def schemas : List (String × Sch × Sch × Sch) := [\n  %s]\n\n", strings.Join(rows, ",\n  "))
-	b.WriteString("end CharonV.Generated.ClusterSsz\n")
-	write(filepath.Join(*outdir, "ClusterSsz.lean"), b.String())
+	fmt.Fprintf(&b, "/-- (version, config hash, definition hash, lock hash, config hash of the definition embedded in a lock) -/\n")
+	fmt.Fprintf(&b, "def schemas : List (String × Sch × Sch × Sch × Sch) := [\n  %s]\n\n", strings.Join(rows, ",\n  "))
 
 	dl, ll := p.fields(versions)
 	var c strings.Builder
@@ -1613,7 +1631,7 @@ func main() {
 	emit := func(name string, ls []leaf) {
 		var parts []string
 		for _, l := range ls {
-			parts = append(parts, fmt.Sprintf("⟨%s, %s, %s⟩", leanStr(l.path), leanStr(l.kind), leanStr(l.target)))
+			parts = append(parts, fmt.Sprintf("⟨%d, %s, %d⟩ /- %s -> %s -/", pathID(l.path), leanStr(l.kind), pathID(l.target), l.path, l.target))
 		}
 		fmt.Fprintf(&c, "def %s : List Leaf := [\n  %s]\n\n", name, strings.Join(parts, ",\n  "))
 	}
@@ -1626,5 +1644,15 @@ func main() {
 	fmt.Fprintf(&c, "def fields : List (String × List Leaf × List Leaf) := [\n  %s]\n\n", strings.Join(frows, ",\n  "))
 	c.WriteString("end CharonV.Generated.ClusterFields\n")
 	write(filepath.Join(*outdir, "ClusterFields.lean"), c.String())
+
+	// the interned JSON paths used by both files
+	var names []string
+	for _, n := range pathNames {
+		names = append(names, leanStr(n))
+	}
+	fmt.Fprintf(&b, "/-- interned JSON leaf paths: `Src.jid`, `Leaf.pid`, `Leaf.tid` index this table. -/\n")
+	fmt.Fprintf(&b, "def pathTable : List String := [\n  %s]\n\n", strings.Join(names, ",\n  "))
+	b.WriteString("end CharonV.Generated.ClusterSsz\n")
+	write(filepath.Join(*outdir, "ClusterSsz.lean"), b.String())
 	fmt.Printf("trans-ssz: %d versions, schemas and fields written to %s\n", len(versions), *outdir)
 }
